@@ -21,7 +21,7 @@ if _os.environ.get("VERIF_P_OVERLAY"):
     _EXTRA.update(_json.loads(_os.environ["VERIF_P_OVERLAY"]))
 
 WORLDS = {
-    "P": {"pkg": "engine", "harness": "engine", "test": "TestVerifWorldP", "cpu": 2, "real": _REAL, "stub": _STUB,
+    "P": {"pkg": "engine", "harness": "engine", "test": "TestVerifWorldP", "cpu": 1, "real": _REAL, "stub": _STUB,
           "harness_files": ["s_*.go", "p_*.go"],
           "extra_overlay": _EXTRA},
 }
